@@ -181,10 +181,16 @@ pub fn views<P: PType>(st: &MapSt<P>, cx: &Cx) -> (Vec<Viol>, u64) {
                     expect!(out, pv.map(|o| (norm((o.0, o.1)), o.2)) == want_val.map(|o| (norm((o.0, o.1)), o.2)), "C11", "TrieViewMut::prefix_value", "value", "{:x?} vs {:x?}", pv, want_val);
                     let vm = v.value_mut().map(|x| *x);
                     expect!(out, vm == want_val.map(|o| o.2), "C11", "TrieViewMut::value_mut", "value", "{:?} vs {:?}", vm, want_val);
-                    // read-only view of the mutable view
+                    // read-only view of the mutable view: same position, same value, same sides
                     let got: Vec<Obs> = (&v).view().iter().take(cap(want.len())).map(|(p, v)| obs(p, v)).collect();
                     if let Some(x) = retag(compare_entries("&TrieViewMut::view().iter", &got, &want), "C11", format!("view_mut_at({:x?})", qk)) {
                         out.push(x);
+                    }
+                    {
+                        let ro = (&v).view();
+                        expect!(out, norm(ro.prefix().raw()) == q, "C11", "&TrieViewMut::view().prefix", "prefix-is-query", "view_mut_at({:x?}).view().prefix() = {:x?}", qk, ro.prefix().raw());
+                        expect!(out, ro.value().copied() == want_val.map(|o| o.2), "C11", "&TrieViewMut::view().value", "value", "view_mut_at({:x?}).view().value() = {:?}, model {:?}", qk, ro.value(), want_val);
+                        check_sides(&mut out, &mut n, &ro, q, model, cx, 0);
                     }
                     let got: Vec<Obs> = v.iter_mut().take(cap(want.len())).map(|(p, v)| obs(p, v)).collect();
                     if let Some(x) = retag(compare_entries("TrieViewMut::iter_mut", &got, &want), "C11", format!("view_mut_at({:x?})", qk)) {
